@@ -419,7 +419,34 @@ def judge_dir(ctx, label, key, d, fmt, depth, cs, psi, kind, regions, mode, acce
 
 # ---- separately started updating jobs on one directory (spec/SampleJobs.tla) ---------------------------------------
 
-RENDEZVOUS_S = 20.0      # backstop only: every party of a shared tile's rendezvous arrives unless its job died
+RENDEZVOUS_S = 30.0      # backstop only: every party of a shared tile's first rendezvous arrives unless its job died
+INSIDE_S = 1.0           # second rendezvous: how long a job that is about to merge its samples waits for the others to get there too
+
+
+class LateArray(np.ndarray):
+    """An array whose elements arrive late (a memory map on a slow file system, a lazily evaluated result): the first numpy
+    operation that READS its elements - of the array or of any view of it - first runs `hook`.  Values, dtype, shape, strides
+    are those of the array it was made from."""
+    _late = None
+
+    def __array_finalize__(self, obj):
+        self._late = getattr(obj, "_late", None)
+
+    def __array_ufunc__(self, ufunc, method, *inputs, **kwargs):
+        for x in inputs:
+            if isinstance(x, LateArray) and x._late is not None and not x._late["done"]:
+                x._late["done"] = True
+                x._late["hook"]()
+        inputs = tuple(x.view(np.ndarray) if isinstance(x, LateArray) else x for x in inputs)
+        if kwargs.get("out") is not None:
+            kwargs["out"] = tuple(o.view(np.ndarray) if isinstance(o, LateArray) else o for o in kwargs["out"])
+        return getattr(ufunc, method)(*inputs, **kwargs)
+
+
+def late(a, hook):
+    out = a.view(LateArray)
+    out._late = {"done": False, "hook": hook}
+    return out
 
 
 def tile_signature(lon, lat):
@@ -429,29 +456,38 @@ def tile_signature(lon, lat):
     return np.concatenate([np.cos(la) * np.cos(lo), np.cos(la) * np.sin(lo), np.sin(la)])
 
 
-def _job_main(j, sc, d, cs, shared, barriers, scratch):
-    """One job: a forked process running a complete updating-mode sampling call.  Its sampler computes the values and then, for
-    a tile that other jobs visit too, waits for them, so that all of them go on into the tile's read-modify-write together."""
+def _job_main(j, sc, d, cs, shared, barriers, inside, scratch):
+    """One job: a forked process running a complete updating-mode sampling call.  For a tile that other jobs visit too its
+    sampler computes the values and waits for the others (first rendezvous: all of them go on into the tile's read-modify-write
+    together); the array it returns makes whoever first reads its elements wait a moment for the other jobs to get as far
+    (second rendezvous, with a short time-out: it is kept only if several jobs are between sampling and merging at once -
+    under mutual exclusion of the whole read-modify-write it never is, and the time-out is all that happens)."""
     import json
     import threading
     import warnings
     warnings.simplefilter("ignore")
-    err, met = None, 0
+    err, met = None, [0, 0]
     try:
         from toasty import toast, pyramid, builder
         job = sc["jobs"][j]
         pio = pyramid.PyramidIO(d, default_format=sc["fmt"])
         base = representing(make_sampler(sc["kind"], job["region"]), job.get("rep"), scratch)
-        box = [0]
 
         def sampler(lon, lat):
             out = base(lon, lat)
             sig = tile_signature(lon, lat)
             for k, (_pos, ref) in enumerate(shared):
                 if np.abs(sig - ref).max() < 1e-6:
+                    def hook(k=k):
+                        try:
+                            inside[k].wait(INSIDE_S)
+                            met[1] += 1
+                        except threading.BrokenBarrierError:
+                            pass
+                    out = late(out, hook)
                     try:
                         barriers[k].wait(RENDEZVOUS_S)
-                        box[0] += 1
+                        met[0] += 1
                     except threading.BrokenBarrierError:
                         pass
                     break
@@ -463,7 +499,6 @@ def _job_main(j, sc, d, cs, shared, barriers, scratch):
                 builder.Builder(pio).toast_base(sampler, sc["depth"], coordsys=cs, tile_filter=flt, parallel=1)
             else:
                 toast.sample_layer_filtered(pio, flt, sampler, sc["depth"], coordsys=cs, parallel=1)
-        met = box[0]
     except BaseException as e:  # noqa
         err = "%s: %s" % (type(e).__name__, str(e)[:300])
     try:
@@ -473,11 +508,9 @@ def _job_main(j, sc, d, cs, shared, barriers, scratch):
         os._exit(0)
 
 
-def run_jobs(ctx, sc, d, cs):
-    """-> (status, detail): ("ok", rendezvous met) | ("raised", text) | ("hung", None)."""
-    import json
+def start_jobs(ctx, sc, d, cs):
+    """Fork the jobs of one scenario; -> handle for finish_jobs."""
     import multiprocessing as mp
-    import time
     from toasty import toast, pyramid
     from toasty.pyramid import Pos
     mpc = mp.get_context("fork")
@@ -490,16 +523,26 @@ def run_jobs(ctx, sc, d, cs):
         with simrun.quiet():
             closure = {(n - k, x >> k, y >> k) for (n, x, y) in union for k in range(n)}
             toast.sample_layer_filtered(pio, lambda t: tuple(t.pos) in closure, make_sampler(sc["kind"], sc["pre"]), depth, coordsys=cs, parallel=1)
-    shared, barriers = [], []
+    shared, barriers, inside = [], [], []
     for pos in sorted(set().union(*leafsets)):
         parties = sum(1 for lv in leafsets if pos in lv)
         if parties >= 2:
-            lon, lat = toast.toast_tile_get_coords(toast.create_single_tile(Pos(*pos)), coordsys=cs)
+            lon, lat = toast.toast_tile_get_coords(toast.create_single_tile(Pos(*pos), coordsys=cs))
             shared.append((pos, tile_signature(lon, lat)))
             barriers.append(mpc.Barrier(parties))
-    procs = [mpc.Process(target=_job_main, args=(j, sc, d, cs, shared, barriers, ctx.scratch)) for j in range(len(sc["jobs"]))]
+            inside.append(mpc.Barrier(parties))
+    procs = [mpc.Process(target=_job_main, args=(j, sc, d, cs, shared, barriers, inside, ctx.scratch)) for j in range(len(sc["jobs"]))]
     for p in procs:
         p.start()
+    # the barriers' shared state must stay allocated for as long as the children use it: the handle keeps them alive
+    return procs, d, sum(len([lv for lv in leafsets if pos in lv]) for (pos, _s) in shared), (barriers, inside)
+
+
+def finish_jobs(ctx, handle):
+    """-> (status, detail): ("ok", (first rendezvous met, expected, second rendezvous met)) | ("raised", text) | ("hung", None)."""
+    import json
+    import time
+    procs, d, expected, _keep = handle
     deadline = time.time() + 180
     for p in procs:
         p.join(max(0.1, deadline - time.time()))
@@ -509,7 +552,7 @@ def run_jobs(ctx, sc, d, cs):
                 p.kill()
                 p.join(5)
         return "hung", None
-    met = 0
+    met = [0, 0]
     for j in range(len(procs)):
         try:
             st = json.load(open(os.path.join(ctx.scratch, "job-%s-%d.json" % (os.path.basename(d), j))))
@@ -517,8 +560,8 @@ def run_jobs(ctx, sc, d, cs):
             return "raised", "job %d ended without a status" % j
         if st["error"]:
             return "raised", "job %d: %s" % (j, st["error"])
-        met += st["met"]
-    return "ok", (met, sum(len([lv for lv in leafsets if pos in lv]) for (pos, _s) in shared))
+        met = [met[0] + st["met"][0], met[1] + st["met"][1]]
+    return "ok", (met[0], expected, met[1])
 
 
 def run(ctx):
@@ -746,42 +789,52 @@ def run(ctx):
                     dict(id=5, entry="toast_base", cs="planetary", fmt="npy", regions=[(0, 0.7, Q), (0.5, Q, Q), (0.3, 1.1, Q)], reps=["native", "be", "negstride"]),
                     dict(id=1, entry="toast_base", cs="astronomical", fmt="npy", regions=[(0, 0.7), (0.7, 7.0)], reps=["be", "memmap"]),
                     dict(id=2, entry="filtered", cs="planetary", fmt="fits", regions=[(0, 0.9, Q), (0.5, Q, Q)], reps=["gapped", "fortran"], pre=(1.0, 1.3, Q))]
-    met_total = [0, 0]
+    met_total = [0, 0, 0]
+    pending = []
     for jr in jobruns:
         jc = [c for c in jobcfgs if c["id"] == jr["id"]][0]
         accepts = [None if isinstance(f, str) else set(f) for (f, _reg) in jc["jobs"]]
         sc = dict(entry=jr["entry"], depth=jD, fmt=jr["fmt"], kind="scalar", pre=jr.get("pre"),
                   jobs=[dict(accept=acc, region=reg, rep=rep) for acc, reg, rep in zip(accepts, jr["regions"], jr["reps"])])
-        cs = csmap[jr["cs"]]
-        psi = toastlat.psi_for(tl, jr["cs"])
-        d = ctx.mkdtemp("c06j")
-        label = "%d separately started jobs (%s, update) on one directory, depth %d %s %s, filters %s, representations %s%s" % (
+        label = "%d separately started jobs (%s, update) on one directory, depth %d %s %s, filters %s, sampler arrays %s%s" % (
             len(sc["jobs"]), jr["entry"], jD, jr["cs"], jr["fmt"], [sorted(a) if a is not None else "all" for a in accepts], jr["reps"],
             ", tiles of an earlier run present" if jr.get("pre") else "")
         key = "C06:%s-jobs" % jr["entry"]
-        try:
-            status, detail = run_jobs(ctx, sc, d, cs)
-        except Exception as e:  # noqa
-            ctx.violation(key + ":raises", "%s raised %r" % (label, e), {"run": label})
-            continue
-        if status == "hung":
-            ctx.violation(key + ":outcome", "%s: the jobs had not returned after 180 s" % label, {"run": label})
-            continue
-        if status == "raised":
-            ctx.violation(key + ":raises", "%s: %s" % (label, detail), {"run": label})
-            continue
-        met_total[0] += detail[0]
-        met_total[1] += detail[1]
-        contrib = [(job["accept"], job["region"]) for job in sc["jobs"]]
-        union = set().union(*[expected_leafset(jD, a) for a in accepts])
-        if tlc_job_leaves[jr["id"]] != union:
-            ctx.machinery("harness leaf set of job configuration %d disagrees with TLC's" % jr["id"])
-        if jr.get("pre"):
-            contrib.append(({(n - k, x >> k, y >> k) for (n, x, y) in union for k in range(n)}, jr["pre"]))
-        w = judge_dir(ctx, label, key, d, jr["fmt"], jD, cs, psi, "scalar", None, "update", None, contrib=contrib)
-        worst = max(worst, w)
-        ctx.trace_ok()
-    ctx.note("job_rendezvous_met_of_expected", met_total)
+        pending.append((jr, sc, accepts, label, key))
+    while pending:
+        # scenarios run side by side, at most 6 job processes at a time
+        batch, nproc = [], 0
+        while pending and nproc + len(pending[0][1]["jobs"]) <= 6:
+            batch.append(pending.pop(0))
+            nproc += len(batch[-1][1]["jobs"])
+        started = []
+        for (jr, sc, accepts, label, key) in batch:
+            try:
+                started.append(start_jobs(ctx, sc, ctx.mkdtemp("c06j"), csmap[jr["cs"]]))
+            except Exception as e:  # noqa
+                ctx.violation(key + ":raises", "%s raised %r" % (label, e), {"run": label})
+                started.append(None)
+        for (jr, sc, accepts, label, key), handle in zip(batch, started):
+            if handle is None:
+                continue
+            status, detail = finish_jobs(ctx, handle)
+            if status == "hung":
+                ctx.violation(key + ":outcome", "%s: the jobs had not returned after 180 s" % label, {"run": label})
+                continue
+            if status == "raised":
+                ctx.violation(key + ":raises", "%s: %s" % (label, detail), {"run": label})
+                continue
+            met_total = [a + b for a, b in zip(met_total, detail)]
+            contrib = [(job["accept"], job["region"]) for job in sc["jobs"]]
+            union = set().union(*[expected_leafset(jD, a) for a in accepts])
+            if tlc_job_leaves[jr["id"]] != union:
+                ctx.machinery("harness leaf set of job configuration %d disagrees with TLC's" % jr["id"])
+            if jr.get("pre"):
+                contrib.append(({(n - k, x >> k, y >> k) for (n, x, y) in union for k in range(n)}, jr["pre"]))
+            w = judge_dir(ctx, label, key, handle[1], jr["fmt"], jD, csmap[jr["cs"]], toastlat.psi_for(tl, jr["cs"]), "scalar", None, "update", None, contrib=contrib)
+            worst = max(worst, w)
+            ctx.trace_ok()
+    ctx.note("job_rendezvous_before_sampling_returns_met_of_expected_and_kept_inside_read_modify_write", met_total)
     ctx.note("worst_deviation_from_psi", worst)
     ctx.sample({"real_run": runs[5], "note": "every tile read back, 65536 pixels each"})
     ctx.assume("psi is validated against the real tile corners (C04) and pixel grids (C05); png tiles carry 8-bit RGB so the psi comparison allows one level")
